@@ -236,7 +236,31 @@ class Ctx:
         else:
             self.discharged = min(self.discharged, max(self.obligations - 1, 0))
         self.theorems = theorems
+        if built and self.thorough and not os.environ.get("VERIF_NO_COQCHK"):
+            self.run_coqchk("PR.Properties." + os.path.basename(prop_file)[:-2])
         return len(self.broken) == n0
+
+    def run_coqchk(self, module, timeout=1500):
+        """Thorough tier: re-check the compiled property file and everything it depends on with the independent checker."""
+        t0 = time.time()
+        p = subprocess.run(["timeout", str(timeout), "coqchk", "-silent", "-o", "-R", COQ, "PR", module], capture_output=True, text=True)
+        out = p.stdout + p.stderr
+        info = {"module": module, "rc": p.returncode, "wall_s": round(time.time() - t0, 1)}
+        m = re.search(r"\* Axioms:(.*?)\n\s*\n\* Constants/Inductives relying on type-in-type:(.*?)\n\s*\n\* Constants/Inductives relying on unsafe \(co\)fixpoints:(.*?)\n\s*\n\* Inductives whose positivity is assumed:(.*?)\n", out, re.S)
+        if m:
+            info["axioms"] = [x.strip() for x in m.group(1).strip().splitlines() if x.strip() and x.strip() != "<none>"]
+            info["type_in_type"], info["unsafe_fix"], info["positivity_assumed"] = (m.group(i).strip() for i in (2, 3, 4))
+            for k in ("type_in_type", "unsafe_fix", "positivity_assumed"):
+                if info[k] != "<none>":
+                    self.broken.append(("coqchk:" + module, "%s: %s" % (k, info[k][:200])))
+            for ax in info["axioms"]:
+                if not ax.startswith("Coq."):
+                    self.broken.append(("coqchk:" + module, "axiom outside the standard library: %s" % ax))
+        elif p.returncode == 124:
+            self.notes.append("coqchk timed out after %ds (not a failure of the check)" % timeout)
+        elif p.returncode != 0:
+            self.broken.append(("coqchk:" + module, out[-400:]))
+        self.coqchk = info
 
     def coqc(self, name, text, timeout=600):
         path = os.path.join(self.rundir, name + ".v")
@@ -339,6 +363,7 @@ class Ctx:
             "input_distribution": self.hist,
             "print_assumptions": self.assumptions_seen,
             "axiom_paths": getattr(self, "axiom_paths", {}),
+            "coqchk": getattr(self, "coqchk", None),
             "theorems": getattr(self, "theorems", []),
             "no_longer_checks": [list(b) for b in self.broken],
             "notes": self.notes,
